@@ -162,6 +162,53 @@ Definition resharded_span (existing : list group) (split : Z) : option (Z * Z) :
   | l :: _ => Some (split + 1, g_end l)
   end.
 
+(* ------------------------------------------------------------------ the other shard-key builders of the write path *)
+(* rows of column-store measurements, rows with a column index and stream results: tags need not be sorted, a key column may be
+   a (string) field; x_cols is Row.ColumnToIndex as an association list (column name -> position among tags ++ fields) *)
+Record xrow := { x_tags : tagset; x_fields : list (str * str); x_cols : list (str * nat) }.
+Definition assoc_find {A} (k : str) (l : list (str * A)) : option (str * A) := find (fun kv => str_eqb (fst kv) k) l.
+(* Row.UnmarshalShardKeyByField (column store): per key column, in the order of the key, the first tag of that name, else the
+   first field of that name, else the row is rejected. No duplicate check. An empty key gives the measurement name alone. *)
+Fixpoint by_field (sk : list str) (r : xrow) : option tagset :=
+  match sk with
+  | [] => Some []
+  | k :: sk' =>
+      match assoc_find k (x_tags r) with
+      | Some kv => option_map (cons kv) (by_field sk' r)
+      | None => match assoc_find k (x_fields r) with
+                | Some kv => option_map (cons kv) (by_field sk' r)
+                | None => None
+                end
+      end
+  end.
+(* Row.UnmarshalShardKeyByTagOp: an empty key takes every tag in row order; else per key column the position from the column
+   index, which must hold a tag or a field of exactly that name *)
+Fixpoint by_cols (sk : list str) (r : xrow) : option tagset :=
+  match sk with
+  | [] => Some []
+  | k :: sk' =>
+      match assoc_find k (x_cols r) with
+      | None => None
+      | Some (_, id) =>
+          let nt := length (x_tags r) in
+          match (if (id <? nt)%nat then nth_error (x_tags r) id else nth_error (x_fields r) (id - nt)) with
+          | Some kv => if str_eqb (fst kv) k then option_map (cons kv) (by_cols sk' r) else None
+          | None => None
+          end
+      end
+  end.
+Definition by_tagop (sk : list str) (r : xrow) : option tagset :=
+  match sk with [] => Some (x_tags r) | _ => by_cols sk r end.
+(* Row.UnmarshalShardKeyByDimOrTag (stream results): the destination's key, else the stream's dimensions *)
+Definition by_dim_or_tag (sk dims : list str) (r : xrow) : option tagset :=
+  match sk, dims with
+  | [], _ :: _ => by_tagop dims r
+  | _, _ => by_tagop sk r
+  end.
+Inductive builder := BField | BTagOp | BDim (dims : list str).
+Definition build_key (b : builder) (sk : list str) (r : xrow) : option tagset :=
+  match b with BField => by_field sk r | BTagOp => by_tagop sk r | BDim dims => by_dim_or_tag sk dims r end.
+
 (* ------------------------------------------------------------------ conditions *)
 Inductive expr :=
 | EEq (id : N) (k v : str)      (* VarRef k = StringLiteral v *)
@@ -233,6 +280,18 @@ Definition hash_arg (c : cfg) (ps : tagset) : str :=
 
 Definition route_in (c : cfg) (g : group) (p : point) : option shard :=
   match wkey c p with
+  | None => None
+  | Some ps =>
+      match c_typ c with
+      | Range => dest_shard (c_mst c ++ key_suffix ps) g
+      | Hash => shard_for c (hash (hash_arg c ps)) g
+      end
+  end.
+
+(* updateShardGroupAndShardKey with one of the other builders: the bytes hashed are the pairs without the measurement name
+   iff the key in force is non-empty (hash_arg), range sharding compares name ++ pairs *)
+Definition route_in_x (b : builder) (c : cfg) (g : group) (r : xrow) : option shard :=
+  match build_key b (c_sk c) r with
   | None => None
   | Some ps =>
       match c_typ c with
